@@ -66,7 +66,7 @@ def subst(arg, w):
 def default_execute(scn, ctx, timeout=10.0, digests=False):
     env = scn.get("env", {}) or {}
     w, snap = ctx.world(scn["world"], env.get("config"), digests=digests or bool(scn.get("digests")))
-    cwd = w.paths[env.get("cwd", 0)]
+    cwd = w.base if env.get("cwd", 0) == -1 else w.paths[env.get("cwd", 0)]
     obs = {}
     for run in scn["runs"]:
         argv = [subst(a, w) for a in run["argv"]]
@@ -95,6 +95,9 @@ def default_execute(scn, ctx, timeout=10.0, digests=False):
         o["nbytes"] = len(r["stdout"])
         obs[run["tag"]] = o
     rec = dict(scn)
+    for n in rec["world"].get("nodes", []):        # text the judge looks inside travels as characters (syntactic conversion)
+        if isinstance(n.get("name"), str) and "namec" not in n:
+            n["namec"] = list(n["name"])
     rec["snapshot"] = snap
     rec["rootpath"] = os.path.realpath(w.paths[0])
     rec["ctl"] = [chr(i) for i in range(1, 32)]      # characters TLA+ source cannot spell
